@@ -2424,6 +2424,9 @@ class BDD(dd._abc.BDD[_Ref]):
                 f'Unknown file type of "{filename}"')
         umap, roots = self._load_pickle(
             filename, levels=levels)
+        if roots is None:
+            # dumped without naming roots
+            return list()
         def map_node(u):
             v = umap[abs(u)]
             if u < 0:
